@@ -34,7 +34,9 @@ from zcsim.world import SimWorld
 ID = "C05"
 LEVEL = "exploration"
 HAS_CLOCK = False
-BUDGET = {"quick": (20000, 240), "thorough": (400000, 1200)}
+# thorough: every flat history of <= 4 steps (42 + 42^2 + 42^3 + 42^4 =
+# 3 187 590) and then 300 000 sampled histories of up to 6 steps
+BUDGET = {"quick": (20000, 240), "thorough": (3187590 + 300000, 2700)}
 RULE = (
     "A case is one load of a rendered history (tree of define/use/section/"
     "include steps over 3 names in mixed case, 15 value shapes incl. $other, "
@@ -43,8 +45,10 @@ RULE = (
     "reference model; each history is loaded three times on one schema "
     "object with an unrelated load in between.  Quick: all flat histories of "
     "<=2 steps are enumerated, the rest sampled; thorough: all flat histories "
-    "of <=3 steps (with a rotating include/section/spelling pattern), then "
-    "4..6 steps sampled.  A history is non-trivial when it contains at least "
+    "of <=4 steps over the 42-symbol alphabet (with a seeded include/section/"
+    "spelling pattern laid over each), then up to 6 steps sampled (when the "
+    "wall-clock cap cuts the enumeration short, runs_skipped_by_wall_cap "
+    "says by how much).  A history is non-trivial when it contains at least "
     "one define and one further define/use of the same name or a reference "
     "to it; distinct = distinct sha256 of the rendered resources.")
 ASSUMPTIONS = [
@@ -438,7 +442,7 @@ def includes_of(steps):
 
 
 def generate(rng, tier, index):
-    n_enum = n_flat(2 if tier == "quick" else 3)
+    n_enum = n_flat(2 if tier == "quick" else 4)
     if index < n_enum:
         steps = [sym_to_step(rng, s) for s in unrank(index)]
         origin = "enumerated"
